@@ -313,6 +313,14 @@ class C18Engine(Engine):
                     ops.append({'op': 'ph', 'name': ''})
             name = names[tape.draw(len(names))]
             mode = 'ab' if tape.chance(12) else 'wb'
+            prev = [o for o in ops if o['op'] == 'file']
+            if prev and tape.chance(15):
+                # the same file written again with the same text (a backend looping over namespaces
+                # that share a file, a section appended twice)
+                again = dict(prev[tape.draw(len(prev))])
+                again['mode'] = tape.choice(['ab', 'wb', 'ab'])
+                ops.append(again)
+                continue
             ops.append({'op': 'file', 'path': name, 'mode': mode, 'body': gen_file_body(tape, tabs),
                         'cls': 'rel'})
         return ops
